@@ -6,7 +6,7 @@ import c12
 
 CONFIGS_QUICK = ["F_all", "F_noenc", "F_def"]  # every configuration whose cfg-gated code the property depends on
 CONFIGS_THOROUGH = ["F_all", "F_noenc", "F_def"]
-TECHNIQUE = 'static analysis: who-may-call rule for lossy decoders (expected 0, positive control), state-machine extraction for EncodingRef with guards, BOM constant table, transitions must be taken (must-store rules), decode_into guard and last-chunk flag, refill discipline of the sniffing helpers (C18) re-evaluated'
+TECHNIQUE = 'static analysis: who-may-call rule for lossy decoders (expected 0, positive control), state-machine extraction for EncodingRef with guards, BOM constant table, transitions must be taken (must-store rules), decode_into guard and last-chunk flag, refill discipline of the sniffing helpers (C18) re-evaluated, minimum-input-length bound of every test before a BOM exit'
 EXPLANATION = (
     "No lossy decoder is callable: who-may-call rule over the whole crate for the replacing entry points of encoding_rs / "
     "std (expected count 0, with a positive control on a known non-lossy callee that must be found); decode/decode_into "
